@@ -641,6 +641,34 @@ fn run_conc(sender: &[(u64, SOp)], receiver: &[(u64, ROp)]) -> (String, String, 
 }
 
 fn gen_conc_script(rng: &mut Rng) -> (Vec<(u64, SOp)>, Vec<(u64, ROp)>) {
+    if rng.chance(1, 4) {
+        // template: the receiver blocks first (receive() or a long receive_timeout()), then only timer
+        // commands arrive: the blocked call must be woken by a timer created while it waits, and a
+        // cancel sent while it waits must take effect
+        let block = if rng.chance(2, 3) { ROp::Recv } else { ROp::RecvTimeout(*rng.pick(&[34u64, 50, u64::MAX])) };
+        let mut sender = vec![];
+        let mut id = 1;
+        let mut used: Vec<u64> = vec![];
+        let n = rng.range(1, 3);
+        for k in 0..n {
+            let tick = 1 + k;
+            let dur = *rng.pick(&[2u64, 10, 18, 26]);
+            if used.contains(&(tick * 8 + 1 + dur)) {
+                continue
+            }
+            used.push(tick * 8 + 1 + dur);
+            id += 1;
+            sender.push((tick, SOp::Timer(id, dur)));
+        }
+        if rng.chance(1, 3) && sender.len() >= 2 {
+            sender.push((1 + n, SOp::Cancel(0)));
+        }
+        let mut receiver = vec![(0, block)];
+        for k in 0..rng.range(0, 2) {
+            receiver.push((8 + k, rng.pick(&[ROp::Try, ROp::Recv, ROp::RecvTimeout(10)]).clone()));
+        }
+        return (sender, receiver)
+    }
     let ticks = rng.range(4, 10);
     let mut sender = vec![];
     let mut receiver = vec![];
@@ -965,6 +993,77 @@ fn run_clones(pairs: usize) -> (String, String, String) {
     )
 }
 
+/// `vq backlog <kind> <n>`: n timer commands pile up between two receive calls (the receiver is away);
+/// the next receive must see all of them (kinds: A earliest deadline first, B a due timer is not
+/// "nothing", C expired timer before plain, D a cancel behind the backlog is exact, E priority / timer /
+/// plain through receive_timeout(0))
+fn run_backlog(kind: &str, n: usize) -> (String, String, String) {
+    if n > 100000 {
+        return ("bad-case".into(), "ok".into(), String::new())
+    }
+    let mut q = EventReceiver::<u64>::default();
+    let tx = q.sender().clone();
+    let far = Duration::from_secs(3600);
+    let ms = Duration::from_millis;
+    let pairs = |tx: &message_io::events::EventSender<u64>| {
+        for i in 0..n {
+            let id = tx.send_with_timer(1000 + i as u64, far);
+            tx.cancel_timer(id);
+        }
+    };
+    let show = |r: Option<u64>| r.map_or("-".to_string(), |x| x.to_string());
+    let t0 = Instant::now();
+    let (got, want): (Vec<String>, Vec<&str>) = match kind {
+        "A" => {
+            tx.send_with_timer(1, ms(20));
+            pairs(&tx);
+            tx.send_with_timer(2, ms(1));
+            std::thread::sleep(ms(60));
+            ((0..3).map(|_| show(q.try_receive())).collect(), vec!["2", "1", "-"])
+        }
+        "B" => {
+            pairs(&tx);
+            tx.send_with_timer(2, ms(1));
+            std::thread::sleep(ms(30));
+            ((0..2).map(|_| show(q.try_receive())).collect(), vec!["2", "-"])
+        }
+        "C" => {
+            pairs(&tx);
+            tx.send_with_timer(2, ms(1));
+            tx.send(3);
+            std::thread::sleep(ms(30));
+            ((0..3).map(|_| show(q.try_receive())).collect(), vec!["2", "3", "-"])
+        }
+        "D" => {
+            let id = tx.send_with_timer(1, ms(50));
+            for i in 0..n {
+                tx.send_with_timer(1000 + i as u64, far);
+            }
+            tx.cancel_timer(id);
+            if t0.elapsed() >= ms(45) {
+                return ("inconclusive".into(), "ok".into(), "inconclusive".into())
+            }
+            std::thread::sleep(ms(150));
+            (vec![show(q.try_receive()), show(q.receive_timeout(ms(100)))], vec!["-", "-"])
+        }
+        "E" => {
+            pairs(&tx);
+            tx.send_with_timer(2, ms(1));
+            tx.send_with_priority(4);
+            tx.send(3);
+            std::thread::sleep(ms(30));
+            ((0..4).map(|_| show(q.receive_timeout(ms(0)))).collect(), vec!["4", "2", "3", "-"])
+        }
+        _ => return ("bad-case".into(), "ok".into(), String::new()),
+    };
+    if kind == "A" && t0.elapsed() < ms(60) {
+        return ("bad-case".into(), "ok".into(), String::new())
+    }
+    let imp = format!("[{}]", got.join(","));
+    let ok = got.iter().map(|s| s.as_str()).collect::<Vec<_>>() == want;
+    (imp, if ok { "ok".into() } else { format!("FAIL expected [{}]", want.join(",")) }, format!("backlog,timer+queued,cancel,n{}", n))
+}
+
 fn run_race(kind: char) -> (String, String, String, String) {
     use message_io::util::verif::set_sync_handler;
     use std::sync::atomic::{AtomicBool, Ordering};
@@ -1128,6 +1227,24 @@ fn main() {
                 }
             }
         }
+        "gen-backlog" => {
+            for n in [200usize, 1500, 5000] {
+                for kind in ["A", "B", "C", "D", "E"] {
+                    let mut r = run_backlog(kind, n);
+                    let mut tries = 0;
+                    while r.0 == "inconclusive" && tries < 3 {
+                        r = run_backlog(kind, n);
+                        tries += 1;
+                    }
+                    if r.0 == "inconclusive" {
+                        emit(&mut out, &format!("#inconclusive vq backlog {} {}", kind, n), "ok", "ok", "inconclusive");
+                    }
+                    else {
+                        emit(&mut out, &format!("vq backlog {} {}", kind, n), &r.0, &r.1, &r.2);
+                    }
+                }
+            }
+        }
         "gen-clones" => {
             let pairs = arg_u64(2, 150000) as usize;
             let (i, v, t) = run_clones(pairs);
@@ -1145,7 +1262,13 @@ fn main() {
         }
         "run" => {
             for line in stdin_lines() {
-                if line.starts_with("vq clones ") {
+                if line.starts_with("vq backlog ") {
+                    let ws: Vec<&str> = line.trim().split(' ').collect();
+                    let n = ws.get(3).and_then(|x| x.parse().ok()).unwrap_or(usize::MAX);
+                    let (i, v, t) = run_backlog(ws.get(2).copied().unwrap_or(""), n);
+                    emit(&mut out, line.trim(), &i, &v, &t);
+                }
+                else if line.starts_with("vq clones ") {
                     let p = line.split(' ').nth(2).and_then(|x| x.parse().ok()).unwrap_or(0);
                     let (i, v, t) = run_clones(p);
                     emit(&mut out, line.trim(), &i, &v, &t);
